@@ -657,7 +657,14 @@ def guarded_effects(r):
     for f in r["facts"]:
         if f["k"] not in ("local", "assign", "return"):
             continue
-        gs = sorted(set("%s%s" % ("" if g["pol"] == 1 else "!", canon(g["cond"])) for g in expand_guards(f.get("g", []))))
+        # a guard is (condition, polarity): negations are peeled into the polarity and comparisons oriented, so `if (!(x > t)) A else B`
+        # and `if (x > t) B else A` yield the same guarded effects (found by the benign screen: B2_b16 on softplus)
+        def _g(g):
+            c, pol = _strip_not(canon(g["cond"]), g["pol"])
+            while _wraps_whole(c) and _wraps_whole(c[1:-1].strip()):
+                c = c[1:-1].strip()
+            return "%s%s" % ("" if pol == 1 else "!", _cmp_orient(c))
+        gs = sorted(set(_g(g) for g in expand_guards(f.get("g", []))))
         gtxt = (" @ " + " & ".join(gs)) if gs else ""
         if f["k"] == "local":
             out.append("let %s = %s" % (canon("%" + f["a"]), canon(f["b"])))
@@ -666,6 +673,20 @@ def guarded_effects(r):
         else:
             out.append("return %s%s" % (canon(f["a"]), gtxt))
     return out
+
+
+def _renorm_effect(e):
+    """bring the guard part of a stored / extracted effect `<effect> @ g1 & g2` into the canonical (polarity, oriented condition) form"""
+    if " @ " not in e:
+        return e
+    head, gtxt = e.split(" @ ", 1)
+    gs = []
+    for g in gtxt.split(" & "):
+        c, pol = _strip_not(g, 1)
+        while _wraps_whole(c) and _wraps_whole(c[1:-1].strip()):
+            c = c[1:-1].strip()
+        gs.append("%s%s" % ("" if pol == 1 else "!", _cmp_orient(c)))
+    return head + " @ " + " & ".join(sorted(set(gs)))
 
 
 def rule_ufop_guarded(rows, prop):
@@ -685,7 +706,12 @@ def rule_ufop_guarded(rows, prop):
         eff = guarded_effects(r)
         if key not in tbl:
             findings.append(finding("R-UFOP.guarded", prop, r, key, "multi-statement op '%s' has no entry in the guarded-effects oracle (tools/ufunc_table.json)" % key)); continue
-        if eff != tbl[key]["effects"]:
+        # locals and assignments are compared in order, guarded returns as a set (their guards are mutually exclusive, so the order in which
+        # the arms are written carries no meaning)
+        def _split(effs):
+            effs = [_renorm_effect(e) for e in effs]
+            return [e for e in effs if not e.startswith("return ")], sorted(e for e in effs if e.startswith("return "))
+        if _split(eff) != _split(tbl[key]["effects"]):
             diff = [e for e in eff if e not in tbl[key]["effects"]] or eff
             findings.append(finding("R-UFOP.guarded", prop, r, "; ".join(diff)[:300], "piecewise definition of '%s' is %s; the reviewed definition is %s" % (key, eff, tbl[key]["effects"])))
         if len(samples) < 3:
@@ -2738,4 +2764,103 @@ def comp_stickyfail(prop, tier, comp, work):
     return out
 
 
-RULES = {"R-FWD.array": comp_fwd_array, "R-FWD.functional": comp_fwd_functional, "R-UFUNC": comp_ufunc, "R-KSIB": comp_ksib, "R-SIMD": comp_simd, "R-CONSTBRANCH": comp_constbranch, "R-TRAITPROV": comp_traitprov, "R-MAYBE-DIV": comp_maybe_div, "R-OWN": comp_own, "R-EVAL": comp_eval, "R-EQSHAPE": comp_eqshape, "R-PAIR": comp_pair, "R-FOLD": comp_fold, "R-MEMCOPY": comp_memcopy, "R-AXISNORM": comp_axisnorm, "R-AXISNORM.simd": comp_axisnorm_simd, "R-UFWD.reduce": comp_ufwd_reduce, "R-PARAMUSE": comp_paramuse, "R-GETFN": comp_getfn, "R-MAYBE.broadcast": comp_maybe_bcast, "R-SIMDSIB": comp_simdsib, "R-EQLEN": comp_eqlen, "R-MAYBE.compare": comp_maybe_compare, "R-STICKYFAIL": comp_stickyfail}
+# --------------------------------------------------------------------------------------------
+# R-SIMDATTR (C12): the SIMD reduction evaluator must consume every attribute of the reduction view that changes the result
+# (op, axis, initial, keepdims) - read it, or test it in order to refuse the view. An evaluator that never looks at `initial`
+# cannot equal the default evaluator for a reduction that has one (found as F38). The attribute list is the reviewed table below;
+# an attribute counts as consumed when any fact of eval_reduction or of a lambda inside it mentions `view.<attribute>`.
+# --------------------------------------------------------------------------------------------
+SIMD_REDUCTION_ATTRS = ["op", "axis", "initial", "keepdims"]
+def comp_simdattr(prop, tier, comp, work):
+    t0 = time.time()
+    tu = os.path.join(work, "umb_simd_attr.cpp")
+    open(tu, "w").write('#include "nmtools/array/eval/simd/x86_avx.hpp"\n#include "nmtools/array/eval/simd/ufunc.hpp"\n')
+    rows, err, cmd = run_nmlint(tu, filters=["include/nmtools/array/eval/simd/evaluator/ufunc.hpp"], flags=["-mavx2", "-mfma"])
+    out = dict(broken=[], units=1, functions=len(rows), cmd=cmd)
+    if err:
+        out["broken"].append(err); return out
+    rs = [r for r in rows if "fn" in r and "::eval_reduction" in r["fn"]]
+    if not rs:
+        out["broken"].append("R-SIMDATTR: eval_reduction not found in eval/simd/evaluator/ufunc.hpp (anchor vanished)"); return out
+    text = " ".join(json.dumps(f) for r in rs for f in r["facts"])
+    findings, n, samples = [], 0, []
+    main = [r for r in rs if not r.get("lambda")][0]
+    for a in SIMD_REDUCTION_ATTRS:
+        n += 1
+        if not re.search(r"view\.%s\b" % a, text):
+            findings.append(finding("R-SIMDATTR", prop, main, "view.%s is never read" % a,
+                                    "the SIMD reduction evaluator never looks at the reduction view's '%s' attribute: it can neither honour it nor refuse the view, so its result differs from the default evaluator's whenever the attribute is set" % a))
+        elif len(samples) < 2:
+            samples.append("R-SIMDATTR eval_reduction reads view.%s" % a)
+    out.update(findings=findings, instances={"R-SIMDATTR": n}, evaluations=n, distinct_nontrivial=n - len(findings), samples=samples, wall_s=round(time.time() - t0, 2))
+    return out
+
+
+# --------------------------------------------------------------------------------------------
+# R-SIBWRITE (C20): overloads of one state-changing member function of an array class (`resize`, `init`) are siblings: each of them has to
+# leave ALL the members that describe the array (shape, strides, cached element count, buffer length, offset functor) consistent, so the
+# sets of members they write must be equal - unless an overload delegates to a sibling. A member that one overload forgets to refresh
+# (a stale cached element count, stale strides) is reported with the overload and the member.
+# --------------------------------------------------------------------------------------------
+_MUTATING = ("resize", "push_back", "clear", "assign", "emplace_back", "pop_back")
+def rule_sibwrite(rows, prop, names=("resize", "init")):
+    findings, samples, n = [], [], 0
+    groups = {}
+    for r in rows:
+        if "fn" not in r or r.get("lambda"):
+            continue
+        leaf = r["fn"].split("::")[-1]
+        if leaf in names and "/array/ndarray/" in r["file"]:
+            groups.setdefault(r["fn"], []).append(r)
+    for fn, rs in sorted(groups.items()):
+        if len(rs) < 2:
+            continue
+        info = []
+        for r in rs:
+            written = set(); delegates = False
+            for f in r["facts"]:
+                if f["k"] == "assign" and f["a"].startswith("this."):
+                    written.add(re.split(r"[.(\[]", f["a"][5:])[0])
+                elif f["k"] == "assign" and re.match(r"(?:::)?nmtools::at\(this\.(\w+)", f["a"]):
+                    written.add(re.match(r"(?:::)?nmtools::at\(this\.(\w+)", f["a"]).group(1))
+                elif f["k"] == "call" and f["a"].startswith("this."):
+                    parts = f["a"][5:].split(".")
+                    if len(parts) >= 2 and parts[-1] in _MUTATING:
+                        written.add(parts[0])
+                    if len(parts) == 1 and parts[0] == fn.split("::")[-1]:
+                        delegates = True
+                elif f["k"] == "call" and f["a"] == fn.split("::")[-1]:
+                    delegates = True
+            info.append((r, written, delegates))
+        full = [w for _, w, d in info if not d]
+        if len(full) < 2:
+            continue
+        union = set().union(*full)
+        for r, w, d in info:
+            if d:
+                continue
+            n += 1
+            missing = sorted(union - w)
+            if missing:
+                findings.append(finding("R-SIBWRITE", prop, r, "%s does not write %s" % (fn.split("::")[-1], ", ".join(missing)),
+                                        "overload of %s at line %s leaves member(s) %s untouched while its sibling overloads refresh them (%s): the array's description becomes inconsistent after this overload" % (fn, r.get("line"), missing, sorted(union))))
+            elif len(samples) < 2:
+                samples.append("R-SIBWRITE %s (line %s) writes %s" % (fn, r.get("line"), sorted(w)))
+    return findings, n, samples
+
+
+def comp_sibwrite(prop, tier, comp, work):
+    t0 = time.time()
+    tu, n = gen_umbrella(["nmtools/array/ndarray"], work, "umb_nd.cpp", extra_lines=['#include "nmtools/array/eval/kernel_helper.hpp"'])
+    rows, err, cmd = run_nmlint(tu, filters=["include/nmtools/array/ndarray/"])
+    out = dict(broken=[], units=n, functions=len(rows), cmd=cmd)
+    if err:
+        out["broken"].append(err); return out
+    f, inst, samples = rule_sibwrite(rows, prop)
+    if inst == 0:
+        out["broken"].append("R-SIBWRITE: no overloaded resize / init found under array/ndarray (anchor vanished)")
+    out.update(findings=f, instances={"R-SIBWRITE": inst}, evaluations=inst, distinct_nontrivial=inst - len(f), samples=samples, wall_s=round(time.time() - t0, 2))
+    return out
+
+
+RULES = {"R-FWD.array": comp_fwd_array, "R-FWD.functional": comp_fwd_functional, "R-UFUNC": comp_ufunc, "R-KSIB": comp_ksib, "R-SIMD": comp_simd, "R-CONSTBRANCH": comp_constbranch, "R-TRAITPROV": comp_traitprov, "R-MAYBE-DIV": comp_maybe_div, "R-OWN": comp_own, "R-EVAL": comp_eval, "R-EQSHAPE": comp_eqshape, "R-PAIR": comp_pair, "R-FOLD": comp_fold, "R-MEMCOPY": comp_memcopy, "R-AXISNORM": comp_axisnorm, "R-AXISNORM.simd": comp_axisnorm_simd, "R-UFWD.reduce": comp_ufwd_reduce, "R-PARAMUSE": comp_paramuse, "R-GETFN": comp_getfn, "R-MAYBE.broadcast": comp_maybe_bcast, "R-SIMDSIB": comp_simdsib, "R-EQLEN": comp_eqlen, "R-MAYBE.compare": comp_maybe_compare, "R-STICKYFAIL": comp_stickyfail, "R-SIMDATTR": comp_simdattr, "R-SIBWRITE": comp_sibwrite}
